@@ -205,8 +205,11 @@ def real_collect(root, out_dir, strategy):
     from paroxython.make_db import TagDatabase
     rec = c11.Recorder()
     try:
-        with c11.recording(rec):
+        with c11.recording(rec), c11.deadline(c11.DEADLINE):
             db = c11.quiet(TagDatabase, root, ignore_timestamps=True, cleanup_strategy=strategy)
+    except c11.Watchdog:
+        return {"exc": "Timeout", "msg": f"TagDatabase did not return within {c11.DEADLINE} s: collecting must terminate "
+                                          "for every import graph"}, rec
     except RecursionError:
         return {"exc": "RecursionError"}, rec
     except Exception as e:  # noqa
@@ -242,7 +245,9 @@ def judge(ctx, drv, orc, files, root, out_dir, strategy):
     if "exc" in impl:
         # the property is violated: the collection aborted
         agree = "exc" in m and m["exc"] == impl["exc"]
-        v.update(kind="violation", what=f"collect aborted with {impl['exc']} (cleanup={strategy})", signature=None,
+        what = (f"collect does not terminate (cleanup={strategy})" if impl["exc"] == "Timeout"
+                else f"collect aborted with {impl['exc']} (cleanup={strategy})")
+        v.update(kind="violation", what=what, signature=None,
                  model_agrees=agree)
         if not agree:
             v["corr_broken"] = True
@@ -303,6 +308,14 @@ def gen_dir(rng):
         files[nm] = t
         bad.append(nm)
         kinds.append(k)
+    if rng.random() < 0.25:
+        # an import cycle (length 1-3) reached from 1-2 programs outside it, named to sort before / after its members
+        k = rng.choice([1, 2, 3])
+        members = rng.sample(["m_utils", "n_vectors", "o_core"], k)
+        for j, nm in enumerate(members):
+            files[f"{nm}.py"] = f"import {members[(j + 1) % k]}\n" + rng.choice(VALID)
+        for o in rng.sample(["a_main", "zz_main", "b_entry"], rng.choice([1, 2])):
+            files[f"{o}.py"] = f"import {rng.choice(members)}\n" + rng.choice(VALID)
     if n_good >= 1 and rng.random() < 0.2:
         # a (bad or empty) file named like a dotted module, and a good file importing that uncollected module
         mod = rng.choice(["os.path", "xml.dom", "a.b", "pkg.sub.m"])
@@ -355,15 +368,16 @@ def shrink(ctx, drv, orc, base, files, strategy, v0, tag):
         return w["kind"] == "violation" and w["what"] == v0["what"] and w.get("signature") == v0.get("signature")
 
     files = dict(files)
+    cap = 6 if "terminate" in v0["what"] else 40  # a non-terminating candidate costs a whole deadline
     for p in list(files):
-        if len(files) > 1:
+        if len(files) > 1 and counter[0] < cap:
             cand = {k: t for k, t in files.items() if k != p}
             if fails(cand):
                 files = cand
     for p in list(files):
         lines = files[p].split("\n")
         i = 0
-        while i < len(lines) and len(lines) > 1 and counter[0] < 40:
+        while i < len(lines) and len(lines) > 1 and counter[0] < cap:
             cand = dict(files)
             cand[p] = "\n".join(lines[:i] + lines[i + 1:])
             if fails(cand):
@@ -384,6 +398,12 @@ def stream_dirs(ctx, drv, orc, n_dirs):
         ({"a.py": "import b\nx = 1\n", "b.py": "import a\n", "c.py": "def (:)\n"}, ["c.py"]),
         ({"a.py": "x = $\n"}, ["a.py"]),
         ({"a.py": "x = 1\n", "b.py": "# just a comment\n"}, ["b.py"]),
+        # import cycles reached from a program OUTSIDE the cycle whose name sorts before its members
+        ({"broken.py": "x = (1,\n", "main.py": "import utils\nprint(1)\n", "utils.py": "import vectors\n",
+          "vectors.py": "import utils\n"}, ["broken.py"]),
+        ({"a.py": "import b\n", "b.py": "import b\nx = 1\n", "c.py": "def (:)\n"}, ["c.py"]),
+        ({"a_main.py": "import n\n", "m.py": "import n\n", "n.py": "import o\n", "o.py": "import m\n",
+          "zz.py": "import o\n", "bad.py": ""}, ["bad.py"]),
         ({"a.py": CODING_LIKE[0], "b.py": CODING_LIKE[1], "c.py": "x = (1,\n"}, ["c.py"]),
         ({"a.py": CODING_LIKE[2], "b.py": CODING_LIKE[3], "c.py": CODING_LIKE[4], "d.py": ""}, ["d.py"]),
         ({"a.py": CODING_LIKE[5], "b.py": CODING_LIKE[6], "c.py": CODING_LIKE[7], "d.py": CODING_LIKE[8], "e.py": CODING_LIKE[9]}, ["d.py"]),
@@ -460,6 +480,9 @@ def stream_dirs(ctx, drv, orc, n_dirs):
                     small, w = files, v
                 seen_known += 1
                 record_violation(ctx, w, small, strategy)
+        if sum(1 for x in ctx.violations if "terminate" in x.get("what", "")) >= 3:
+            ctx.notes.append("directory stream stopped after three non-terminating runs (each costs a deadline)")
+            break
         if i % 10 == 9:
             import shutil
             for sub in base.iterdir():
